@@ -53,7 +53,7 @@ Fund == [recips |-> Recips(PlainAmts, <<FALSE, FALSE, TRUE>>), feerate |-> Pick(
          mindepth |-> 0, changetype |-> "", changedest |-> FALSE, changepos |-> Pick(<<-1, 0>>), via |-> "fund",
          commit |-> Pick(<<FALSE, TRUE>>), lockunspents |-> Pick(<<FALSE, TRUE>>)]
 \* an ordinary payment that will normally succeed and be committed: what fee bumps (C56) work on
-Simple == [recips |-> [i \in 1..Pick(<<1, 1, 2>>) |-> [to |-> Pick(<<"ext_bech32", "ext_legacy", "faucet", "faucet", "self_bech32", "ext_bech32m">>), amt |-> Pick(<< <<"pct", 5>>, <<"pct", 20>>, <<"pct", 40>>, <<"abs", 20000>> >>), sffo |-> Pick(<<FALSE, FALSE, FALSE, TRUE>>)]],
+Simple == [recips |-> [i \in 1..Pick(<<1, 1, 2>>) |-> [to |-> Pick(<<"ext_bech32", "ext_legacy", "faucet", "faucet", "self_bech32", "ext_bech32m">>), amt |-> Pick(<< <<"pct", 5>>, <<"pct", 20>>, <<"pct", 40>>, <<"pct", 70>>, <<"pct", 70>>, <<"abs", 20000>> >>), sffo |-> Pick(<<FALSE, FALSE, FALSE, TRUE>>)]],
            feerate |-> Pick(<<-1, 1000, 3333, 10000, 25000, 60000>>), override |-> FALSE, preset |-> <<>>, ext |-> 0, other |-> TRUE, unsafe |-> FALSE,
            mindepth |-> 0, changetype |-> Pick(<<"", "", "legacy", "bech32m">>), changedest |-> FALSE, changepos |-> -1, via |-> "create", commit |-> TRUE, lockunspents |-> FALSE]
 \* a payment with an input of somebody else (only ever bumped with require_mine off)
